@@ -604,8 +604,23 @@ static void* dg_receiver(void* a) {
     uint32_t v[4] = {0, 0, 0, 0};
     ssize_t r = -1;
     vp_errno_clear();
-    FB_BLOCKING(s, "C08 recv(datagram)", r = recv(dg_fd_r, v, sizeof(v), 0));
-    eagain_check("recv", 1, r, vp_errno());
+    // every receiving call of the library takes its turn: each has its own retry loop
+    const unsigned how = (unsigned)s->c % 4;  // one API per receiver, all four present
+    if (how == 0) {
+      FB_BLOCKING(s, "C08 recv(datagram)", r = recv(dg_fd_r, v, sizeof(v), 0));
+    } else if (how == 1) {
+      FB_BLOCKING(s, "C08 recvfrom(datagram)", r = recvfrom(dg_fd_r, v, sizeof(v), 0, NULL, NULL));
+    } else if (how == 2) {
+      FB_BLOCKING(s, "C08 read(datagram)", r = read(dg_fd_r, v, sizeof(v)));
+    } else {
+      struct iovec iov = {v, sizeof(v)};
+      struct msghdr mh;
+      memset(&mh, 0, sizeof(mh));
+      mh.msg_iov = &iov;
+      mh.msg_iovlen = 1;
+      FB_BLOCKING(s, "C08 recvmsg(datagram)", r = recvmsg(dg_fd_r, &mh, 0));
+    }
+    eagain_check(how == 0 ? "recv" : how == 1 ? "recvfrom" : how == 2 ? "read" : "recvmsg", 1, r, vp_errno());
     if (r != (ssize_t)sizeof(v) || v[1] != (v[0] ^ 0xabcdef) || v[0] >= 4096) {
       vp_violation("C08", "io:datagram-corrupt", "trial %d: datagram receive returned %zd (errno %d), record %u", trial, r, vp_errno(), v[0]);
       break;
@@ -659,8 +674,8 @@ static void scen_many_waiters(uint64_t* rng) {
     dg_total = 50 + (int)(vp_rand(rng) % 400);
     memset((void*)dg_seen, 0, sizeof(dg_seen));
     atomic_store(&dg_got, 0);
-    const int R = 2 + (int)(vp_rand(rng) % 4);
-    for (i = 0; i < R; ++i) sl[n++] = fb_spawn(dg_receiver, NULL);
+    const int R = 4 + (int)(vp_rand(rng) % 3);
+    for (i = 0; i < R; ++i) sl[n++] = fb_spawn(dg_receiver, (void*)(intptr_t)i);
     sl[n++] = fb_spawn(dg_sender, NULL);
     fb_join_all(sl, n);
     for (i = 0; i < dg_total; ++i)
@@ -917,7 +932,18 @@ static void* root(void* x) {
   for (trial = 0; trial < trials; ++trial) {
     fb_slots_reset();
     me = fb_slot_new();
-    scen = only >= 0 ? only : (int)(vp_rand(&rng) % 9);
+    // every scenario gets its turn (a fresh random order every nine trials)
+    static int order[9];
+    if (trial % 9 == 0) {
+      int q;
+      for (q = 0; q < 9; ++q) order[q] = q;
+      for (q = 8; q > 0; --q) {
+        const int j = (int)(vp_rand(&rng) % (unsigned)(q + 1)), t = order[q];
+        order[q] = order[j];
+        order[j] = t;
+      }
+    }
+    scen = only >= 0 ? only : order[trial % 9];
     vp_add(c_scen[scen], 1);
     switch (scen) {
       case 0: scen_streams(&rng); break;
